@@ -13,7 +13,7 @@ from vlib import ref, tie, tol
 from vlib.runner import HarnessError, Refused, Violation, sut
 
 ID = "C20"
-BUDGET = {"quick": 1280, "thorough": 24000}
+BUDGET = {"quick": 1280, "thorough": 120000}
 RULE = ("Generated: tensor_factorizations.cp / tucker (shape 2..4 modes of size 2..4, rank 1..3, embedding / "
         "categorical / binomial factors, weighted or not) and tensor_train (rank 1..3, real or complex factors); "
         "pgms.hmm (any permutation as ordering, latent states 1..3, categorical / binomial / Gaussian inputs, "
